@@ -3,7 +3,7 @@ from __future__ import annotations
 
 import json
 
-from .. import common, store_check
+from .. import bigstore, common, store_check
 from ..main import Report
 
 ASSUMPTIONS = [
@@ -14,6 +14,9 @@ ASSUMPTIONS = [
     'SQLite: rowid = max+1, unique index honoured, ORDER BY ties in rowid order',
     'observed choices (set iteration order, AUTO verdicts) are passed to the model, which checks that they are admissible',
 ]
+
+
+BIG_PROPS = {'C01', 'C02', 'C03', 'C09', 'C10', 'C11', 'C12', 'C16'}
 
 
 def run_store(prop: str, tier: str, quick: list, thorough: list, runner_flags: dict | None = None) -> Report:
@@ -62,16 +65,23 @@ def run_store(prop: str, tier: str, quick: list, thorough: list, runner_flags: d
         if len(rep.samples) < 3 and r.steps >= 5:
             rep.samples.append({'profile': r.case['profile'], 'case_id': r.case['case_id'], 'cfgs': r.case.get('cfgs'),
                                 'ops': [{k: v for k, v in op.items() if k != 'model_line'} for op in r.trace[:12]]})
+    if prop in BIG_PROPS:
+        # large containers with the library's real batch sizes (direct oracles only; see harness/bigstore.py)
+        rep.failures += bigstore.failures_for(prop, 6 if tier == 'quick' else 90, rep)
     rep.distinct_nontrivial = len(nontrivial)
     rep.extra['distinct_histories'] = len(digests)
     rep.rule = ('seeded operation histories (profiles ' + ', '.join(f'{p}x{n}' for p, n in plan) + ') run step by step on the real '
                 'Container and on the Lean model; a case counts as distinct+non-trivial when its operation/choice sequence has a '
-                'unique digest, at least 4 steps and at least 3 different operation kinds')
+                'unique digest, at least 4 steps and at least 3 different operation kinds'
+                + ('; plus large containers (1 150 - 10 100 objects) with the real batch sizes, direct oracles only' if prop in BIG_PROPS else ''))
     rep.assumptions = ASSUMPTIONS
     return rep
 
 
 def replay_store(prop: str, path: str) -> int:
+    r_big = bigstore.replay_big(prop, path)
+    if r_big is not None:
+        return r_big
     doc = json.loads(open(path).read())
     rp = doc.get('replay') or {}
     if rp.get('kind') != 'store':
